@@ -5,7 +5,8 @@
    Control/Source/Binary::wrap_and_sort.
 
    The shipped code violates C07 in several places (see docs/cones/C07.md).  Each repair is a
-   flag of [variant]; [fixed] has all of them, [shipped] none.  The theorems are about [fixed],
+   flag of [variant]; [fixed] has all of them (the first six are in /repo, C07-21 / C07-22 are
+   proposed), [shipped] none.  The theorems are about [fixed],
    the _refuted lemmas about [shipped]; the runner evaluates [fixed] unless
    VERIF_C07_MODEL=shipped.
 
